@@ -32,7 +32,7 @@ fn any_chain_shell() -> (BaseMoveChain<NoRepeat>, usize) {
     (BaseMoveChain { start: ab::any_raw(), board: ab::any_board(), repeat: NoRepeat, stack, outcome: any_outcome() }, n)
 }
 harness! {
-    #[kani::unwind(14)]
+    #[kani::unwind(66)]
     fn c13_chain_equality_v2() {
         let (a, na) = any_chain_shell();
         let (b, nb) = any_chain_shell();
